@@ -1,6 +1,6 @@
 from props import cfg
 
-CFG = cfg('C14', refine=[], extract='Ex_C14', driver='c14',
+CFG = cfg('C14', refine=['Refine_subarea'], extract='Ex_C14', driver='c14',
           rule='generated packet sequences built through PGPy\'s own packet classes (dummy signature MPIs; parsing does not verify): 1-3 keys per blob '
                '(public and private), 0-4 user ids / attributes each with 0-4 self / third-party / revocation signatures, direct-key and key '
                'revocation signatures, 0-3 subkeys with binding signatures carrying 0-2 embedded cross-signatures, few distinct creation times '
